@@ -33,10 +33,12 @@ def run(ck):
     ck.rule("C15.R4", "an I/O error affects only its batch; flush on every Ok batch", floor=3)
     ck.rule("C15.R5", "shutdown ordering; guard drop waits for the worker", floor=4)
     ck.rule("C15.R6", "dropped-lines counter saturates and loses no increment", floor=3)
+    ck.rule("C15.R7", "a line accepted behind the shutdown marker is still written (the worker drains the channel before it releases the writer)", floor=1)
     r1(ck, F)
     r2(ck, F)
     r3(ck, F)
     r4(ck, F)
+    r7(ck, F)
     r5(ck, F)
     r6(ck, F)
 
@@ -207,24 +209,39 @@ def r4(ck, F):
         ok = True
         why = ""
         n_ok = 0
+        ws = F.adts.get("tracing_appender::worker::WorkerState")
+        terminal_idx = {i for i, v in enumerate(ws["variants"]) if v["name"] in ("Shutdown", "Disconnected")} if ws else set()
         for p in PathEval(w).run():
             if p.end != "return":
                 continue
             r = show(p.ret)
             flushed = any(c[1].get("method") == "flush" for c in p.calls)
+            # which state the batch ended in, when the path branches on it (discriminant of WorkerState)
+            st = [c[1] for c in p.conds if show(c[0]).startswith("discr((branch(handle_") and isinstance(c[1], int)]
+            terminal = bool(st) and st[-1] in terminal_idx
             if r.startswith("Result::Ok"):
                 n_ok += 1
                 if not flushed:
                     ok, why = False, "an Ok batch returns without flushing the writer"
-            elif r.startswith("from_residual("):
-                pass
+            elif r.startswith("from_residual(") or r.startswith("map(flush(arg1.writer)"):
+                # a handler's error, or the flush's own error, propagates -- but never instead of a terminal state
+                if terminal:
+                    ok, why = False, "a batch that ended in Shutdown/Disconnected returns the flush error instead of that state"
+                if r.startswith("map(flush("):
+                    n_ok += 1
             else:
                 ok, why = False, "unexpected return %s" % r
+        # "stop" must reach the worker loop whatever the final flush does: with `flush()?` before `Ok(state)` a failing
+        # flush turns Shutdown / Disconnected into Err, which the loop treats as "carry on": the writer is never released
+        plain_q = any(show(p.ret).startswith("from_residual((branch(flush(") for p in PathEval(w).run() if p.end == "return")
+        if plain_q:
+            ok, why = False, ("the end-of-batch flush is `?`-propagated before the state is returned: a flush error at shutdown hides Shutdown/Disconnected from "
+                              "the worker loop, which keeps waiting (or spins) and never drops the writer")
         # errors of the handlers propagate (`?`): the branch on their result leads to from_residual
         if ok and n_ok:
-            ck.ok("C15.R4", "work: flush on every Ok batch; handler/flush errors propagate", fn=w.path)
+            ck.ok("C15.R4", "work: flush on every batch; errors propagate, but never instead of Shutdown/Disconnected", fn=w.path)
         else:
-            ck.bad("C15.R4", "work: flush on every Ok batch; handler/flush errors propagate", where(w.raw["sp"]), why or "no Ok path", fn=w.path)
+            ck.bad("C15.R4", "work: flush on every batch; errors propagate, but never instead of Shutdown/Disconnected", where(w.raw["sp"]), why or "no Ok path", fn=w.path)
         # loop shape: blocking recv first, then try_recv while Continue
         names = [t["callee"].get("method") for bb, t in w.calls()]
         if names.count("recv") == 1 and names.count("try_recv") == 1:
@@ -353,3 +370,23 @@ def r6(ck, F):
         ck.ok("C15.R6", "early return at usize::MAX", fn=b.path)
     else:
         ck.bad("C15.R6", "early return at usize::MAX", where(b.raw["sp"]), "no early return when saturated", fn=b.path)
+
+
+def r7(ck, F):
+    """WorkerGuard::drop sends Msg::Shutdown through the *same* channel as the lines. NonBlocking::write keeps accepting
+    lines (returning Ok, counting nothing as dropped) until the receiver is gone, so a line enqueued after the marker --
+    by a thread still logging while the guard is dropped -- is "accepted" yet sits behind the point where the worker
+    stops. Unless the worker drains what is left after seeing Shutdown, such lines are silently discarded."""
+    t = F.body(WK + "worker_thread::{closure#0}")
+    w = F.body(WK + "work")
+    if not (ck.anchor("C15.R7", "worker_thread loop", t) and ck.anchor("C15.R7", "Worker::work", w)):
+        return
+    drains = [tt["callee"].get("method") for x in (t, w) for bb, tt in x.calls() if tt["callee"].get("method") in ("try_iter", "drain", "recv_timeout", "iter")]
+    # does the batching loop keep receiving after a Shutdown? (it loops only while the state is Continue)
+    key_ok = "the worker drains the channel after the shutdown marker"
+    if drains:
+        ck.ok("C15.R7", key_ok, fn=t.path, detail=drains)
+    else:
+        ck.bad("C15.R7", "lines accepted behind the shutdown marker are discarded", where(t.raw["sp"]),
+               "work() stops receiving at Msg::Shutdown and the worker thread then drops the receiver: nothing drains the lines that NonBlocking::write accepted after the "
+               "guard queued the marker (they are neither written nor counted as dropped)", fn=t.path)
